@@ -756,6 +756,11 @@ func fieldRanges(reply any) []frange {
 
 // arrivals builds a datagram sequence for an operation on controller dev from the classes
 // {valid, wrong length, wrong serial, serial 0, wrong code, wrong SOM, 0x19 SOM, malformed field, silence}
+// the function code of the previous call of the history being played (0 = none)
+var lastOpCode byte
+
+func setLastOpCode(c byte) { lastOpCode = c }
+
 func genArrivals(r *rng.R, op opDef, dev uint32, focus string) ([][]byte, string) {
 	if op.reply == nil {
 		if r.Chance(1, 2) {
@@ -778,6 +783,12 @@ func genArrivals(r *rng.R, op opDef, dev uint32, focus string) ([][]byte, string
 			b[4], b[5], b[6], b[7] = 0, 0, 0, 0
 		case "wrong-code":
 			b[1] = rng.Pick(r, b[1]^0x02, 0x00, 0x94, 0x20, 0xff)
+		case "previous-code": // the reply code of the operation this client called just before (a late reply to THAT call)
+			if lastOpCode != 0 && lastOpCode != b[1] {
+				b[1] = lastOpCode
+			} else {
+				b[1] ^= 0x02
+			}
 		case "wrong-som":
 			b[0] = rng.Pick(r, byte(0x18), 0x00, 0x71, 0xff)
 		case "som-19-code-20": // the one header the codec exempts (a v6.62 event), as the reply to another operation
@@ -860,6 +871,8 @@ func genArrivals(r *rng.R, op opDef, dev uint32, focus string) ([][]byte, string
 		return [][]byte{mk("mutated")}, "mutated-field"
 	case "silence":
 		return nil, "silence"
+	case "late-reply-of-previous-call":
+		return [][]byte{mk("previous-code"), mk("valid")}, "previous-code,valid"
 	case "refused": // nothing arrives and the directed paths fail at once, the way a refused connection does
 		return nil, "refused"
 	}
@@ -955,10 +968,17 @@ func streamOps(c *ctx) {
 		if h == 0 {
 			calls = 300 // one long history: the 256th call and beyond, failed calls in between
 		}
+		prevCode, silent := byte(0), false
 		for k := 0; k < calls; k++ {
 			op := opDefs[r.Intn(len(opDefs))]
-			arr, cls := genArrivals(r, op, dev, rng.Pick(r, "valid", "seq", "silence"))
+			focus := rng.Pick(r, "valid", "seq", "silence")
+			if silent && r.Chance(1, 2) { // right after a call nobody answered: its reply comes now, before this call's own
+				focus = "late-reply-of-previous-call"
+			}
+			setLastOpCode(prevCode)
+			arr, cls := genArrivals(r, op, dev, focus)
 			runOp(c, u, d, g, op, dev, r.Chance(1, 6), arr, "phase/history", "arrivals/"+cls)
+			prevCode, silent = op.code, focus == "silence"
 		}
 	}
 	// (5) six clients on six goroutines at the same time
